@@ -99,3 +99,80 @@ def apply_edits(g, edits, assign):
 
 def element_counts(g):
     return collections.Counter(d['Z'] for _, d in g.nodes(data=True))
+
+
+# ---------------------------------------------------------------------------------------------------
+# network closure (C17): species = hydrogen-explicit multigraph over neutral atoms; radicals are the valence deficit
+
+VALENCE = {1: 1, 6: 4, 8: 2, 7: 3}
+
+
+def species_graph(mol_with_h):
+    g = nx.Graph()
+    for a in mol_with_h.GetAtoms():
+        g.add_node(a.GetIdx(), Z=a.GetAtomicNum(), q=0, r=0)
+    for b in mol_with_h.GetBonds():
+        g.add_edge(b.GetBeginAtomIdx(), b.GetEndAtomIdx(), o=int(ORDER.get(b.GetBondType().name, 1)))
+    return g
+
+
+def species_key(g):
+    h = g.copy()
+    for n, d in h.nodes(data=True):
+        d['lab'] = str(d['Z'])
+    for u, v, d in h.edges(data=True):
+        d['lab'] = str(d['o'])
+    return nx.weisfeiler_lehman_graph_hash(h, node_attr='lab', edge_attr='lab', iterations=5) + '/%d/%d' % (
+        h.number_of_nodes(), h.number_of_edges())
+
+
+def overvalent(g):
+    for n, d in g.nodes(data=True):
+        if sum(g[n][m]['o'] for m in g[n]) > VALENCE[d['Z']]:
+            return True
+    return False
+
+
+# a rule of the pool: (Z1, Z2, bond order it applies to, new order or None = scission)
+def apply_rule(g, rule):
+    z1, z2, old, new = rule
+    out = []
+    for u, v, d in list(g.edges(data=True)):
+        zu, zv = g.nodes[u]['Z'], g.nodes[v]['Z']
+        if d['o'] != old or {zu, zv} != {z1, z2} or (z1 != z2 and False):
+            continue
+        h = g.copy()
+        if new is None:
+            h.remove_edge(u, v)
+        else:
+            h[u][v]['o'] = new
+        comps = [h.subgraph(c).copy() for c in nx.connected_components(h)]
+        out.append(comps)
+    return out
+
+
+def closure(seed_graphs, rules, cap=5000):
+    seen = {}
+    todo = []
+    for g in seed_graphs:
+        k = species_key(g)
+        if k not in seen:
+            seen[k] = g
+            todo.append(g)
+    multi_path = False
+    while todo:
+        g = todo.pop(0)
+        for rule in rules:
+            for comps in apply_rule(g, rule):
+                for c in comps:
+                    if overvalent(c):
+                        continue
+                    k = species_key(c)
+                    if k in seen:
+                        multi_path = True
+                        continue
+                    seen[k] = nx.convert_node_labels_to_integers(c)
+                    todo.append(seen[k])
+                    if len(seen) > cap:
+                        raise RuntimeError('closure larger than cap')
+    return seen, multi_path
